@@ -188,7 +188,7 @@ def r162(facts, res, ctx):
         inserts = [e for e in p.calls(name='insert')]
         flags = {}
         for (l, pr), val in p.env.items():
-            if not pr and b.lty(l) == 'bool' and is_const(val) and b.name_of(l):
+            if isinstance(l, int) and not pr and b.lty(l) == 'bool' and is_const(val) and b.name_of(l):
                 flags[l] = val[1]
         rows.setdefault(kind, []).append((sorted(sets), inserts, flags, p))
     # identify the flag: a bool local set to 0 on some rows
@@ -300,7 +300,7 @@ def r162(facts, res, ctx):
     for bb, t in cr_sets:
         w = Walker(b, facts, max_paths=16)
         for p in w.run(bb, stop=lambda x: x in headers):
-            incs = [(k, v) for k, v in p.env.items() if not k[1] and v[0] == 'bin' and v[1] == 'Add' and is_const(v[3]) and v[3][1] == 1]
+            incs = [(k, v) for k, v in p.env.items() if isinstance(k[0], int) and not k[1] and isinstance(v, tuple) and v[0] == 'bin' and v[1] == 'Add' and is_const(v[3]) and v[3][1] == 1]
             took = [v for c, v in p.conds if is_call(c, 'set')]
             if incs and took == [1]:
                 okc = True
